@@ -159,15 +159,128 @@ theorem readLabels_frame {s : DState} {dn t c : Nat} {fd : FrameData}
     readLabels s dn = (column fd c).map Labels.nums := by
   simp [readLabels, hasLink_of_linkedAs h, linkValues_frame h hf]
 
+/-- the unit of a range dimension linked to column `c` of a frame is `DimensionLink.unit` of that frame
+(`linkFrameUnit`), its label the column's name -/
 theorem readDimAttr_frame {s : DState} {dn t c : Nat} {fd : FrameData}
     (h : LinkedAs s dn t "DataFrame" [(c : Int)]) (hk : kindOf s.g dn = kDimRange) (hf : frameOf s t = some fd)
-    {u : Option String} {n : String} (hu : fd.units[c]? = some u) (hn : fd.cols[c]? = some n) :
-    readDimAttr s dn "unit" = .ok u ∧ readDimAttr s dn "label" = .ok (some n) := by
+    {n : String} (hn : fd.cols[c]? = some n) :
+    readDimAttr s dn "unit" = linkFrameUnit fd c ∧ readDimAttr s dn "label" = .ok (some n) := by
   have hl := hasLink_of_linkedAs h
   have hty := linkType_of_linkedAs h
   have hc := linkColumn_of_linkedAs h
   obtain ⟨ln, nm, h1, h2, _, _⟩ := h
-  constructor <;> simp [readDimAttr, hk, hl, hty, hc, linkTarget, h1, h2, hf, hu, hn]
+  constructor <;> simp [readDimAttr, hk, hl, hty, hc, linkTarget, h1, h2, hf, hn]
+
+/-! ### the `units` of a frame: what `DataFrame.units` reads and what a dimension link reads / writes -/
+
+/-- the frame's `units` attribute, when present, has one entry per column (kept by `createFrame`, `setUnits`,
+the unit setter of a dimension link and `write_column`) -/
+def FrameWF (fd : FrameData) : Prop := ∀ us, fd.units = some us → us.length = fd.cols.length
+
+/-- what an assigned unit reads as afterwards: None and the empty text both read None -/
+def normUnit (v : Option String) : Option String := v.bind readUnit
+
+theorem readUnit_store (v : Option String) : readUnit (unitText v) = normUnit v := by
+  cases v <;> simp [normUnit, readUnit, unitText]
+
+/-- a frame without units: the dimension link reports None, as `DataFrame.units` is None -/
+theorem linkFrameUnit_no_units {fd : FrameData} (h : frameUnits fd = none) (c : Nat) :
+    linkFrameUnit fd c = .ok none := by
+  unfold frameUnits at h
+  cases hu : fd.units with
+  | none => simp [linkFrameUnit, hu]
+  | some us => simp [hu] at h
+
+/-- a frame with units: the dimension link reports exactly the entry `DataFrame.units` shows for the column -/
+theorem linkFrameUnit_of_units {fd : FrameData} {us : List (Option String)} {c : Nat} {u : Option String}
+    (h : frameUnits fd = some us) (hu : us[c]? = some u) : linkFrameUnit fd c = .ok u := by
+  unfold frameUnits at h
+  cases hs : fd.units with
+  | none => simp [hs] at h
+  | some raw =>
+    simp only [hs, Option.map_some, Option.some.injEq] at h
+    subst h
+    simp only [List.getElem?_map] at hu
+    cases hr : raw[c]? with
+    | none => simp [hr] at hu
+    | some x =>
+      simp only [hr, Option.map_some, Option.some.injEq] at hu
+      simp [linkFrameUnit, hs, hr, hu]
+
+/-- a well-formed frame never refuses the read for one of its columns -/
+theorem linkFrameUnit_total {fd : FrameData} (hwf : FrameWF fd) {c : Nat} (hc : c < fd.cols.length) :
+    ∃ u, linkFrameUnit fd c = .ok u := by
+  cases hs : fd.units with
+  | none => exact ⟨none, by simp [linkFrameUnit, hs]⟩
+  | some us =>
+    have hlen := hwf us hs
+    have : c < us.length := by omega
+    exact ⟨readUnit us[c], by simp [linkFrameUnit, hs, List.getElem?_eq_getElem this]⟩
+
+/-- the unit setter of a dimension link on a well-formed frame: never refused (no units, None, "" or text
+alike); the frame then HAS units, the column's entry reads as the value assigned (None for None / ""), every
+other column reads as before (None where the frame had no units), columns and rows are untouched -/
+theorem setFrameUnit_spec {fd : FrameData} (hwf : FrameWF fd) {c : Nat} (hc : c < fd.cols.length)
+    (v : Option String) :
+    ∃ fd', setFrameUnit fd c v = .ok fd' ∧ fd'.cols = fd.cols ∧ fd'.rows = fd.rows ∧ FrameWF fd' ∧
+      linkFrameUnit fd' c = .ok (normUnit v) ∧
+      frameUnits fd' = some ((match frameUnits fd with
+        | some us => us
+        | none => List.replicate fd.cols.length none).set c (normUnit v)) := by
+  cases hs : fd.units with
+  | none =>
+    refine ⟨{ fd with units := some ((List.replicate fd.cols.length "").set c
+      (unitText v)) }, ?_, rfl, rfl, ?_, ?_, ?_⟩
+    · simp [setFrameUnit, hs, hc]
+    · intro us h
+      simp only [Option.some.injEq] at h
+      subst h
+      simp
+    · simp [linkFrameUnit, hc, readUnit_store]
+    · simp only [frameUnits, hs, Option.map_none, Option.map_some, List.map_set, readUnit_store,
+        List.map_replicate]
+      simp [readUnit]
+  | some us =>
+    have hlen := hwf us hs
+    have hcu : c < us.length := by omega
+    refine ⟨{ fd with units := some (us.set c (unitText v)) }, ?_, rfl, rfl, ?_, ?_, ?_⟩
+    · simp [setFrameUnit, hs, hcu]
+    · intro us' h
+      simp only [Option.some.injEq] at h
+      subst h
+      simpa using hlen
+    · simp [linkFrameUnit, hcu, readUnit_store]
+    · simp only [frameUnits, hs, Option.map_some, List.map_set, readUnit_store]
+
+/-- `frame.units = units` accepted: the frame at `q`, its dataset, its previous content; only `units` changed -/
+theorem setUnits_ok {s s' : DState} {q : Path} {units : List (Option String)} (h : setUnits s q units = .ok s') :
+    ∃ f ds fd, frameAt s q = .ok f ∧ s.g.child? f "data" = some ds ∧ look s.frames ds = some fd ∧
+      units.length = fd.cols.length ∧
+      s' = { s with frames := put s.frames ds { fd with units := some (storeUnits units) } } := by
+  unfold setUnits at h
+  cases hf : frameAt s q with
+  | error e => simp [hf] at h
+  | ok f =>
+    simp only [hf] at h
+    cases hds : s.g.child? f "data" with
+    | none => simp [hds] at h
+    | some ds =>
+      simp only [hds] at h
+      cases hd : look s.frames ds with
+      | none => simp [hd] at h
+      | some fd =>
+        simp only [hd] at h
+        split at h
+        · cases h
+        · next h1 => exact ⟨f, ds, fd, rfl, hds, hd, by simpa using h1, (Except.ok.inj h).symm⟩
+
+theorem frameUnits_storeUnits (fd : FrameData) (units : List (Option String)) :
+    frameUnits { fd with units := some (storeUnits units) } = some (units.map normUnit) := by
+  simp only [frameUnits, storeUnits, Option.map_some, List.map_map]
+  congr 1
+  apply List.map_congr_left
+  intro u _
+  exact readUnit_store u
 
 /-! ### data writes -/
 
@@ -700,8 +813,11 @@ theorem excl_of_same {s s' : DState} (h : Excl s) (hc : ∀ k m, s'.g.child? k m
   have := h k (by rw [← hk]; exact hkr)
   simpa [hasLink, hasChild_eq, hc] using this
 
-theorem excl_setDimAttr {s s' : DState} {p : Path} {i : Nat} {attr : String} {v : Option String}
-    (hex : Excl s) (h : setDimAttr s p i attr v = .ok s') : Excl s' := by
+/-- an accepted `dim.unit = v` / `dim.label = v` either writes one attribute of a node (the descriptor or
+the linked array) or rewrites the `units` of the linked frame; the graph's links and kinds stay -/
+theorem setDimAttr_graph {s s' : DState} {p : Path} {i : Nat} {attr : String} {v : Option String}
+    (h : setDimAttr s p i attr v = .ok s') :
+    (attr = "unit" ∨ attr = "label") ∧ (s'.g = s.g ∨ ∃ x, s'.g = s.g.setAttr x attr v) := by
   unfold setDimAttr at h
   cases hdn : dimAt s p i with
   | error e => simp [hdn] at h
@@ -713,12 +829,7 @@ theorem excl_setDimAttr {s s' : DState} {p : Path} {i : Nat} {attr : String} {v 
       · by_cases h2 : attr = "label"
         · exact Or.inr h2
         · simp [h1, h2] at h
-    have hne : "~kind" ≠ attr := by rcases hattr with e | e <;> rw [e] <;> decide
-    have key : ∀ x, Excl { s with g := s.g.setAttr x attr v } := by
-      intro x
-      apply excl_of_same hex
-      · intro k m; exact child?_setAttr _ _ _ _ _ _
-      · intro k; unfold kindOf; rw [getAttr_setAttr_attr_ne _ _ _ _ hne]
+    refine ⟨hattr, ?_⟩
     split at h
     · cases h
     · split at h
@@ -730,12 +841,30 @@ theorem excl_setDimAttr {s s' : DState} {p : Path} {i : Nat} {attr : String} {v 
               · cases h
               · split at h
                 · split at h
-                  · have hs' := (Except.ok.inj h).symm; subst hs'; exact hex
+                  · have hs' := (Except.ok.inj h).symm; subst hs'; exact Or.inl rfl
                   · cases h
                 · cases h
-            · have hs' := (Except.ok.inj h).symm; subst hs'; exact key _
+            · have hs' := (Except.ok.inj h).symm; subst hs'; exact Or.inr ⟨_, rfl⟩
           · cases h
-        · have hs' := (Except.ok.inj h).symm; subst hs'; exact key _
+        · have hs' := (Except.ok.inj h).symm; subst hs'; exact Or.inr ⟨_, rfl⟩
+
+theorem excl_setDimAttr {s s' : DState} {p : Path} {i : Nat} {attr : String} {v : Option String}
+    (hex : Excl s) (h : setDimAttr s p i attr v = .ok s') : Excl s' := by
+  obtain ⟨hattr, hg⟩ := setDimAttr_graph h
+  have hne : "~kind" ≠ attr := by rcases hattr with e | e <;> rw [e] <;> decide
+  rcases hg with hg | ⟨x, hg⟩
+  · apply excl_of_same hex
+    · intro k m; rw [hg]
+    · intro k; rw [hg]
+  · apply excl_of_same hex
+    · intro k m; rw [hg]; exact child?_setAttr _ _ _ _ _ _
+    · intro k; rw [hg]; unfold kindOf; rw [getAttr_setAttr_attr_ne _ _ _ _ hne]
+
+theorem excl_setUnits {s s' : DState} {q : Path} {units : List (Option String)} (hex : Excl s)
+    (h : setUnits s q units = .ok s') : Excl s' := by
+  obtain ⟨_, _, _, _, _, _, _, hs'⟩ := setUnits_ok h
+  subst hs'
+  exact hex
 
 theorem excl_setLabels {s s' : DState} {p : Path} {i : Nat} {ls : List String}
     (hex : Excl s) (h : setLabels s p i ls = .ok s') : Excl s' := by
